@@ -3780,6 +3780,7 @@ evhttp_dispatch_callback(struct httpcbq *callbacks, struct evhttp_request *req)
 {
 	struct evhttp_cb *cb;
 	size_t offset = 0;
+	size_t translated_len;
 	char *translated;
 	const char *path;
 
@@ -3788,11 +3789,14 @@ evhttp_dispatch_callback(struct httpcbq *callbacks, struct evhttp_request *req)
 	offset = strlen(path);
 	if ((translated = mm_malloc(offset + 1)) == NULL)
 		return (NULL);
-	evhttp_decode_uri_internal(path, offset, translated,
+	translated_len = evhttp_decode_uri_internal(path, offset, translated,
 	    0 /* decode_plus */);
 
 	TAILQ_FOREACH(cb, callbacks, next) {
-		if (!strcmp(cb->what, translated)) {
+		/* compare as byte strings: a decoded %00 must not cut the
+		 * path short ("/admin%00x" is not "/admin") */
+		if (strlen(cb->what) == translated_len &&
+		    !memcmp(cb->what, translated, translated_len)) {
 			mm_free(translated);
 			return (cb);
 		}
